@@ -453,6 +453,9 @@ func c03StageSpecVal(c *Ctx) error {
 
 func init() {
 	register("C03", func(c *Ctx) error {
+		// h.NewRNG(seed) starts the same additive sequence one step later for seed+1, so that forks of neighbouring
+		// seeds coincide; re-seed from a mixed output so that different VERIF_SEEDs explore unrelated cases
+		c.Rng = &h.RNG{S: c.Rng.Next() ^ 0xC03C03C03C03C03}
 		if err := c03StageRefs(c); err != nil {
 			return err
 		}
@@ -474,7 +477,30 @@ func init() {
 		cn, cd := c03CorpusFiles(c.Repo)
 		docs = append(docs, cd...)
 		names = append(names, cn...)
-		if err := c03StageLoop(c, docs, names); err != nil {
+		tn, td := c03TestInputs(c.Repo)
+		if err := c03StageLoop(c, append(append([][]byte{}, docs...), td...), append(append([]string{}, names...), tn...)); err != nil {
+			return err
+		}
+		if err := c03ReplayKnown(c); err != nil {
+			return err
+		}
+		// DOM oracle: fixed snippet corpus under all Keep* combinations, then generated + corpus documents
+		var sd [][]byte
+		var sn []string
+		for _, s := range c03Snippets {
+			sd = append(sd, []byte(s))
+			sn = append(sn, h.Q([]byte(s)))
+		}
+		if err := c03StageDom(c, sd, sn, true); err != nil {
+			return err
+		}
+		nd := c.N(1200, 30000)
+		if nd > len(docs) {
+			nd = len(docs)
+		}
+		dd := append(append([][]byte{}, docs[:nd]...), cd...)
+		dn := append(append([]string{}, names[:nd]...), cn...)
+		if err := c03StageDom(c, dd, dn, false); err != nil {
 			return err
 		}
 		return nil
